@@ -32,7 +32,7 @@ S = Suite(
           "|L| 5..1e9 m of both signs with |zm/L| <= 20 and ln(zm/z0)+psi >= 0.5, n 1..40, Pr in "
           "{0.7,1,1.3}, domain height default (also 1.5zm/3zm when n >= 4), default stretch; x = z/L in "
           "+-[1e-12, 50] for psi/phi; L = inf (exact neutrality), array-valued tke, "
-          "domain_height <= zm and custom stretch not examined; call histories: a base forcing followed by 10 near-twins "
+          "domain_height <= zm not examined; custom stretch 2.5 / 3 / 4 zm with the default domain height (n >= 4); call histories: a base forcing followed by 10 near-twins "
           "differing in one argument (z0 by 0.2 % / 2e-5, zm, L, wind, n, Pr, closure, given quantity)",
     rule="1e-9 relative for wind at z[n] and K; 1e-12*zm for z[0], z[n]; 1e-10 for the z0<->ustar "
          "round trip; quad abs 1e-10 + rel 1e-9 for psi; 1e-12 for the reference copies",
@@ -81,7 +81,7 @@ def psi_closed(x):
 
 # ----------------------------------------------------------------------------- profiles
 @S.kind("profiles")
-def profiles(closure, n, zm, z0, um, vm, mol, prsc, dh_factor, given):
+def profiles(closure, n, zm, z0, um, vm, mol, prsc, dh_factor, given, stretch_factor=0):
     import numpy as np
     from bldfm.pbl_model import vertical_profiles
     absum = math.hypot(um, vm)
@@ -89,6 +89,10 @@ def profiles(closure, n, zm, z0, um, vm, mol, prsc, dh_factor, given):
     kw = dict(mol=mol, prsc=prsc, closure=closure)
     if dh_factor:
         kw["domain_height"] = dh_factor * zm
+    if stretch_factor:
+        # a custom stretching scale with the domain height left at its documented default 2*zm (the grid still has to
+        # reach it and to contain zm at index n)
+        kw["stretch"] = stretch_factor * zm
     zmx = (dh_factor or 2.0) * zm
     if given == "ustar":
         z, prof = vertical_profiles(n, zm, (um, vm), ustar=ustar, **kw)
@@ -323,6 +327,11 @@ def generate(tier, rng):
             yield "profiles", dict(closure=closure, n=n, zm=zm, z0=z0, um=um, vm=vm, mol=mol,
                                    prsc=rng.choice([1.0, 1.0, 0.7, 1.3]), dh_factor=dh,
                                    given=("ustar", "z0")[k % 2])
+            if k % 6 == 0 and n >= 4:
+                # stretching scale given (2.5 / 3 / 4 zm: the whole default column stays below the asymptote of the map),
+                # domain height at its default
+                yield "profiles", dict(closure=closure, n=n, zm=zm, z0=z0, um=um, vm=vm, mol=mol, prsc=1.0, dh_factor=0,
+                                       given=("z0", "ustar")[k % 2], stretch_factor=(2.5, 3.0, 4.0)[(k // 6) % 3])
         for k in range(6 if q else 40):
             zm, z0, um, vm, mol = _consistent(rng)
             n = rng.choice([2, 3, 5, 8, 16])
